@@ -19,11 +19,13 @@ MC_Msgs == [m1 |-> [key |-> "k1", src |-> "sA", dest |-> "app1", ph |-> "P1"]]
 Payloads == [P0 |-> [len |-> 0, pat |-> "asc"], P1 |-> [len |-> 1, pat |-> "asc"],
              P31 |-> [len |-> 31, pat |-> "asc"], P32 |-> [len |-> 32, pat |-> "ff"],
              P33 |-> [len |-> 33, pat |-> "asc"], Pbig |-> [len |-> 20480, pat |-> "asc"],
-             P32z |-> [len |-> 32, pat |-> "zero"]]
+             P32z |-> [len |-> 32, pat |-> "zero"], Phuge |-> [len |-> 65537, pat |-> "asc"]]
 Strings == [empty |-> [len |-> 0, kind |-> "ascii"], long300 |-> [len |-> 300, kind |-> "ascii"],
-            utf8 |-> [len |-> 12, kind |-> "utf8"]]
-Chains == {"empty", "long300", "utf8", "ethereum"}
-Addrs == {"empty", "0xabc", "utf8"}
+            utf8 |-> [len |-> 12, kind |-> "utf8"],
+            \* upper and lower case, digits, blanks (leading / trailing), punctuation, a NUL byte
+            mixed |-> [len |-> 19, kind |-> "mixed"]]
+Chains == {"empty", "long300", "utf8", "ethereum", "Ethereum", "mixed"}
+Addrs == {"empty", "0xabc", "utf8", "0xABCdef", "mixed"}
 
 Senders ==
     {[caller |-> "alice", via |-> "direct", through |-> "none", auth |-> au] : au \in {{"alice"}, {"bob"}, {}, {"alice", "bob"}}}
